@@ -61,6 +61,8 @@ CLASSES = {
     'hold-expiry': (('established',), {(4, 0)}),
     'openwait-expiry': (('await-open',), {(5, 1)}),
     'teardown': (('established',), 'cease'),
+    # a well-formed UPDATE of exactly the negotiated maximum (4096): the last length that is not an error
+    'update-max-size': (('established',), 'ignored'),
     # a subcode that does not fit the octet the NOTIFICATION has for it: the command is refused and the session goes on
     'teardown-badcode': (('established',), 'ignored'),
     'notif-ok': (('await-open', 'openconfirm', 'established'), None),
@@ -130,6 +132,8 @@ def generate(rng, tier: str, index: int) -> dict:
         # 'peer-only': the peer announces Extended Message, ExaBGP is configured not to: the limit stays 4096 (RFC 8654 4)
         'extmsg': rng.choice(['none', 'none', 'peer-only']),
         'enh_refresh': rng.chance(0.5),  # the peer announces Enhanced Route Refresh or only the plain one
+        # the peer announces Graceful Restart, exabgp is not configured for it: nothing is negotiated, every close still says why
+        'peer_gr': rng.fork('peer-gr').choice([None, None, 0, 120]),
         'local_auto': rng.chance(0.15),  # `local-as auto`: ExaBGP's OPEN waits for the peer's, so 'await-open' is before anything was sent
     }  # fmt: skip
 
@@ -142,6 +146,14 @@ def injection(spec: dict, spk: Speaker, sess, plan) -> bytes | None:
         m = bytearray(R.MARKER)
         m[(a * 13) % 16] ^= 1 << (a % 8)
         return R.message(R.KEEPALIVE, marker=bytes(m))
+    if cls == 'update-max-size':
+        attrs = R.attribute(R.A_ORIGIN, b'\x00') + R.attribute(R.A_AS_PATH, R.enc_as_path([(2, [spk.asn])] if not plan['ibgp'] else [], sess.ctx.asn4)) + R.attribute(R.A_NEXT_HOP, bytes([10, 0, 0, 2]))
+        if plan['ibgp']:
+            attrs += R.attribute(R.A_LOCAL_PREF, (100).to_bytes(4, 'big'))
+        filler = R.attribute(201, b'z' * (4096 - 19 - 4 - len(attrs) - 4 - 4), flags=0xC0, extlen=True)
+        msg = R.build_update(attrs=attrs + filler, nlri=bytes([24, 203, 0, 113]))
+        assert len(msg) == 4096, len(msg)
+        return msg
     if cls == 'hdr-marker-and-length':
         m = bytearray(R.MARKER)
         m[(a * 7) % 16] ^= 0x80 >> (a % 8)
@@ -223,7 +235,7 @@ def execute(plan: dict) -> dict:
         'families': [(1, 1)], 'caps': {'route-refresh': True, 'extended-message': False} if plan.get('extmsg') == 'peer-only' else {'route-refresh': True}, 'api': {'processes': ['h1']},
         'static': ['route 192.0.2.0/24 next-hop self'],
     }  # fmt: skip
-    spk = Speaker(w, 'p1', PEER, peer_as, PEER, LOCAL, hold=plan['hold'], caps=speaker_caps({'asn': peer_as, 'extmsg': plan.get('extmsg') == 'peer-only', 'enh_refresh': bool(plan.get('enh_refresh'))}))
+    spk = Speaker(w, 'p1', PEER, peer_as, PEER, LOCAL, hold=plan['hold'], caps=speaker_caps({'asn': peer_as, 'extmsg': plan.get('extmsg') == 'peer-only', 'enh_refresh': bool(plan.get('enh_refresh')), 'gr': plan.get('peer_gr')}))
     w.boot(config_text([{'name': 'h1'}], [neighbor]))
     h = w.procs.helper('h1')
     queue = list(plan['sessions'])
